@@ -9,7 +9,8 @@
   within its wire width; `RepSpent`: the preset spent outputs.
 
   Domain notes.  Script codes must be canonically encoded (the library parses and re-serialises
-  redeem / witness / tap scripts; `tapleaf_canonical` discharges this from the C04 round trip) and,
+  redeem / witness scripts; `script_code_canonical` discharges this from the C04 round trip; tap scripts
+  are hashed as the raw witness bytes) and,
   for the legacy algorithm, free of OP_CODESEPARATOR (`hsep`; Core strips it, the library does not —
   no standard script contains one).  BIP342's `codesep_pos` is fixed to 0xffffffff in the library.
   An empty last witness element of a stack of two or more makes `has_annex` raise (`hlast`).
@@ -126,20 +127,20 @@ theorem extflag_eq_spec (w : Witness) (hlast : w.items.length < 2 ∨ w.items.ge
   extFlagOf_spec w hlast
 
 /-- the tap leaf hash of the BIP342 extension is `hash_TapLeaf(v ‖ compact_size(s) ‖ s)` for the script
-    and control-block elements of the witness -/
+    element (its bytes exactly as they are in the witness, canonical or not) and the control-block element
+    of the CURRENT witness stack: it is recomputed from the fields by every query -/
 theorem tapleaf_eq_spec (sha : Bytes → Bytes) (xonlyOK : Bytes → Bool) (w : Witness) (a : Bool) (v0 : UInt8)
     (cbt raw : Bytes)
     (ha : w.hasAnnex Cfg.repaired = some a) (hcb : fromEnd w.items (if a then 2 else 1) = some (v0 :: cbt))
     (hlen1 : (cbt.length + 1) % 32 = 1) (hlen2 : 33 ≤ cbt.length + 1) (hlen3 : cbt.length + 1 ≤ 4129)
     (hkey : xonlyOK (cbt.take 32) = true)
-    (hraw : fromEnd w.items (if a then 3 else 2) = some raw) (hrl : raw.length < 2 ^ 63)
-    (hcanon : Script.serialize (parseRaw raw) = some (Spec.Sighash.serScript raw)) :
+    (hraw : fromEnd w.items (if a then 3 else 2) = some raw) (hrl : raw.length < 2 ^ 63) :
     tapLeafHash Cfg.repaired sha xonlyOK w = some (Spec.Sighash.tapleafHash sha (v0.toNat &&& 0xFE) raw) :=
-  tapLeafHash_spec sha xonlyOK w a v0 cbt raw ha hcb hlen1 hlen2 hlen3 hkey hraw hrl hcanon
+  tapLeafHash_spec sha xonlyOK w a v0 cbt raw ha hcb hlen1 hlen2 hlen3 hkey hraw hrl
 
-/-- canonically encoded scripts (the image of `raw_serialize` on well-formed commands, C04) satisfy
-    the re-serialisation hypothesis -/
-theorem tapleaf_canonical (cs : List Cmd) (raw : Bytes) (wf : ∀ c ∈ cs, CmdWF c) (h : serCmds cs = some raw)
+/-- canonically encoded scripts (the image of `raw_serialize` on well-formed commands, C04) re-serialise
+    to themselves: the hypothesis under which parsed redeem / witness scripts are the BIP143 script code -/
+theorem script_code_canonical (cs : List Cmd) (raw : Bytes) (wf : ∀ c ∈ cs, CmdWF c) (h : serCmds cs = some raw)
     (hl : raw.length < 2 ^ 63) :
     Script.serialize (parseRaw raw) = some (Spec.Sighash.serScript raw) :=
   reserialize_canonical cs raw wf h hl
@@ -220,6 +221,16 @@ theorem query_pure (H : Hashes) (xonlyOK : Bytes → Bool) (q : Query) (o : TxOb
 theorem history_independent (H : Hashes) (xonlyOK : Bytes → Bool) (ops : List Op) (o : TxObj) :
     run Cfg.repaired H xonlyOK o ops = expectedAnswers H xonlyOK o.tx ops :=
   run_repaired H xonlyOK ops o
+
+/-- the same, spelled out for in-place edits of one input's witness stack (tap script, control block,
+    annex added or removed, items inserted): everything a digest derives from the witness — annex, ext_flag,
+    the BIP342 leaf hash — is a function of the current fields, so query, edit the witness items of input
+    `j` in any way `g`, query again answers exactly what a fresh object with the edited witness answers -/
+theorem requery_after_witness_edit (H : Hashes) (xonlyOK : Bytes → Bool) (o : TxObj) (q q' : Query) (j : Nat)
+    (g : List Bytes → List Bytes) :
+    run Cfg.repaired H xonlyOK o [.query q, .edit (editWitness j g), .query q'] =
+      [freshAnswer H xonlyOK o.tx q, freshAnswer H xonlyOK (editWitness j g o.tx) q'] :=
+  run_repaired H xonlyOK _ o
 
 /-- F05d (fixed): with the memoisation of the unrepaired code (`Cfg.asWas`) the property fails — query,
     remove the outputs, query again: the second answer still commits to the removed output -/
